@@ -224,6 +224,8 @@ def run_case(idx, rng, P, rep):
                 clause = 'valid-state-rejected'
                 if pt == 'List' and by_name[k].get('item_type_name'):
                     clause = 'valid-state-rejected/item_type'
+                if pt in ('Integer', 'Number') and isinstance(getattr(obj, k), bool):
+                    clause = 'valid-state-rejected/bool-value'       # (true / false are not of JSON type integer / number)
                 viol(clause, pt, f'{label}: {k}={getattr(obj, k)!r} serialised {v!r} rejected by schema {schema[k]!r}: '
                      f'{errs[0].message[:200]} [{sub}]', extra=dict(value=repr(v)))
 
